@@ -12,6 +12,8 @@ import FqModel.Gaps
                model `gaps total rs` = <g>* .
   `coverall <total> [@note]* <all non-gap leaves of the buffer>*` TAB `<all gap fields of the buffer>*|-`
       run "tree", once per gap-filled buffer root: no bit of the buffer is lost (see coverAllVerdict).
+  `bufleaves [@note]* <leaves the synthetic decoder decoded from one buffer>*` TAB `<leaves fq's tree accounts to it>*|-`
+      run "tree", synthetic decodes only: equality as multisets (see bufLeavesVerdict).
   `cover <total> [@note]* <r>*` TAB `<g>*|-`
       the coverage predicate only (run "tree", buffers whose root value was replaced by a single
       scalar leaf — json, xml, … — where the gap fields FillGaps computes cannot be attached).
@@ -118,6 +120,23 @@ def coverAllVerdict (total : Range) (rs gs : List Range) : String :=
     | some b => s!"KNOWN one-bit-hole bit={b}"
     | none => "OK"
 
+/-- `bufleaves`: the (non-gap) leaves fq's tree accounts to a buffer are exactly the leaves the
+    synthetic decoder decoded from that buffer (its own log) — a leaf of another buffer that is
+    counted as covering bits of this one covers nothing of it. -/
+def bufLeavesVerdict (expected observed : List Range) : String :=
+  let key (r : Range) : Int × Int := (r.start, r.len)
+  let srt (l : List Range) := (l.map key).toArray.qsort (fun a b => a.1 < b.1 || (a.1 == b.1 && a.2 < b.2)) |>.toList
+  let e := srt expected
+  let o := srt observed
+  if e == o then "OK"
+  else
+    let extra := o.filter (fun x => !e.contains x)
+    let missing := e.filter (fun x => !o.contains x)
+    match extra, missing with
+    | x :: _, _ => s!"PROPFAIL leaf {x.1}:{x.2} is accounted to this buffer but was not decoded from it"
+    | [], x :: _ => s!"PROPFAIL leaf {x.1}:{x.2} was decoded from this buffer but is not accounted to it"
+    | [], [] => "PROPFAIL leaves accounted to this buffer differ in multiplicity from the leaves decoded from it"
+
 def gapbitsVerdict (hexw soff snb sgl : String) (obs : List String) : String :=
   match bytesOfHex hexw, soff.toNat?, snb.toNat?, sgl.toNat? with
   | some window, some off, some nb, some gapLen =>
@@ -149,6 +168,10 @@ def stepC04 (op obs : String) : String :=
     match parseRange t, parseRanges rs, parseRanges (words obs) with
     | some total, some rs, some implGaps => gapsVerdict false total rs implGaps
     | _, _, _ => "BADOP parse"
+  | "bufleaves" :: rs =>
+    match parseRanges (if rs.isEmpty then ["-"] else rs), parseRanges (words obs) with
+    | some e, some o => bufLeavesVerdict e o
+    | _, _ => "BADOP parse"
   | "coverall" :: t :: rs =>
     match parseRange t, parseRanges rs, parseRanges (words obs) with
     | some total, some rs, some gs => coverAllVerdict total rs gs
